@@ -23,7 +23,7 @@ vars == <<ph, deg, kv, sel>>
 
 Prof(pp, bmax, spans, maxd) == [p |-> pp, bmax |-> bmax, spans |-> spans, maxd |-> maxd]
 Profiles ==
-  CASE Tier = "quick"    -> <<Prof(0, 3, 3, 0), Prof(1, 3, 3, 1), Prof(2, 3, 2, 2), Prof(3, 3, 2, 2)>>
+  CASE Tier = "quick"    -> <<Prof(0, 3, 3, 0), Prof(1, 3, 3, 1), Prof(2, 3, 2, 2), Prof(3, 2, 2, 2)>>
     [] Tier = "thorough" -> <<Prof(0, 4, 4, 0), Prof(1, 4, 4, 1), Prof(2, 4, 3, 2), Prof(3, 4, 3, 3), Prof(4, 3, 2, 2)>>
 PF(pp)  == Profiles[pp + 1]
 KVS(pp) == OpenKVs(pp, PF(pp).bmax, 3, PF(pp).spans, 9)
@@ -61,7 +61,9 @@ TpCases == <<
   [kvs |-> << <<0,0,2,2>>, <<0,0,0,1,1,1>>, <<0,0,1,3,3>> >>,          ps |-> <<1,2,1>>],
   [kvs |-> << <<0,0,0,1,2,2,2>>, <<0,0,1,1>>, <<0,0,0,0,2,2,2,2>> >>,  ps |-> <<2,1,3>>],
   [kvs |-> << <<0,0,0,1,1,1>>, <<0,0,0,1,1,1>> >>,                     ps |-> <<2,2>>],
-  [kvs |-> << <<0,0,1,2,2>>, <<0,0,1,1>>, <<0,0,1,1>> >>,              ps |-> <<1,1,1>>]
+  [kvs |-> << <<0,0,1,2,2>>, <<0,0,1,1>>, <<0,0,1,1>> >>,              ps |-> <<1,1,1>>],
+  [kvs |-> << <<0,0,1,2,2>>, <<0,0,1,2,3,3>> >>,                       ps |-> <<1,1>>],
+  [kvs |-> << <<0,0,1,2,2>>, <<0,0,1,2,2>>, <<0,0,1,2,3,3>> >>,        ps |-> <<1,1,1>>]
 >>
 IdA(d) == [i \in 1..d |-> [j \in 1..d |-> IF i = j THEN One ELSE Zero]]
 IntMat(M) == [i \in 1..Len(M) |-> [j \in 1..Len(M[i]) |-> R(M[i][j])]]
